@@ -1881,6 +1881,8 @@ class t2data(object):
         else:
             if 'type' in self.solver: solver_type = self.solver['type']
             else: solver_type = self.parameter['option'][21]
+        # (MOP(21) values above 6 do not select a TOUGH2 solver- treat as default)
+        if not (0 <= solver_type <= 6): solver_type = 0
         self.lineq = {'type': [2, 1, 2, 2, 1, 2, 1][solver_type], 'epsilon': None,
                       'max_iterations': None, 'gauss': None, 'num_orthog': None}
         self.insert_section('LINEQ')
